@@ -56,4 +56,3 @@ Proof.
       * field. repeat split; auto. unfold qn. intros H0. unfold Qeq in H0. simpl in H0. lia.
 Qed.
 End Union.
-Print Assumptions C08_uniform.
